@@ -816,3 +816,66 @@ def run_finibound(prog, ctx=None):
                        "" if bad is None else "`%s` runs before the finalizer loop reads %s->_used as its bound: the loop sees the new length, the elements up to the old one are never finalized" % (
                            norm(show(bad, f)), base))
     return res
+
+
+def run_finifirst(prog, ctx=None):
+    """FINIFIRST: in a function that runs the element finalizer in a loop, the used length is lowered only behind that loop:
+    a store to `_used` that is not reachable from the head of a finalizer loop (a shortcut taken before the loop) and that
+    is not an increase (`_used = used + ..`, `_used += ..`) drops elements that were never finalized.  Stores that record how
+    far a constructor loop got, and stores under a test that the traits have no finalizer, are the accepted exceptions."""
+    res = Result("FINIFIRST")
+    files = set(ctx.get("files", [])) if ctx else None
+    for f in funcs_of(prog, files):
+        tc = [x for x in trait_calls(f) if x[3] == "fini"]
+        if not tc:
+            continue
+        loops = natural_loops(f)
+        heads = set()
+        for b, i, e, role in tc:
+            hs = [h for h, body in loops.items() if b.id in body]
+            if hs:
+                heads.add(min(hs, key=lambda x: len(loops[x])))
+        if not heads:
+            continue
+        init_loops = set()
+        for b, i, e, role in trait_calls(f):
+            if role == "init":
+                for h, body in loops.items():
+                    if b.id in body:
+                        init_loops |= body
+        behind = set()
+        for h in heads:
+            behind |= {h} | set(f.reachable_from(h))
+        for b, i, e in f.elements():
+            for n in walk_own(e):
+                if not (n.get("k") == "bin" and n.get("op") in ("=", "-=")):
+                    continue
+                l = strip(n["a"], lvalue_to_rvalue=False)
+                if not (l.get("k") == "mem" and l.get("f") == "_used"):
+                    continue
+                # increases and constructor bookkeeping
+                r = strip(n["b"], all_casts=True)
+                grows = r.get("k") == "bin" and r.get("op") == "+"
+                if grows or b.id in init_loops:
+                    continue
+                ok = b.id in behind
+                if not ok:
+                    # under a test that there is no finalizer / that nothing is used
+                    dom = f.dominators()
+                    for pb in dom[b.id]:
+                        blk = f.blocks[pb]
+                        if blk.term and blk.term.get("cond") is not None:
+                            c = strip(blk.term["cond"], all_casts=True)
+                            txt = norm(show(c, f))
+                            if "fini" in txt and "fini(" not in txt:
+                                ok = True
+                            # growth guard: `if (v > X->_used) X->_used = v`
+                            if c.get("k") == "bin" and c.get("op") in (">", "<"):
+                                big, small = (c["a"], c["b"]) if c["op"] == ">" else (c["b"], c["a"])
+                                sm = strip(small, all_casts=True)
+                                if sm.get("k") == "mem" and sm.get("f") == "_used" and norm(show(strip(big, all_casts=True), f)) == norm(show(r, f)) and blk.succ and blk.succ[0] is not None \
+                                        and (blk.succ[0] == b.id or blk.succ[0] in dom[b.id]):
+                                    ok = True
+                res.ob("%s:%s at line %s" % (f.qn, norm(show(n, f))[:40], n.get("l", f.line)), ok, f, n.get("l", f.line) or f.line,
+                       "" if ok else "`%s` lowers the used length on a path that has not passed the finalizer loop of %s: the elements it drops are never finalized" % (norm(show(n, f)), f.qn))
+    return res
